@@ -1053,6 +1053,10 @@ def c17_runs(tier, rep, bins):
                 runs.append({"backend": b, "level": l, "alloc": "failtape", "failK": k, "failMin": 0, "stream": 1})
             for k in ks[:3]:   # the k-th allocation of any kind during execution is refused
                 runs.append({"backend": b, "level": l, "alloc": "fail", "failK": k, "failMin": 0, "stream": 1})
+        # the operating system refuses the JIT's executable mapping (not a tape request, same contract)
+        runs.append({"backend": "jit", "level": 2, "alloc": "failmmap", "failK": 0, "failMin": 0, "stream": 1})
+        runs.append({"backend": "jit", "level": 0, "alloc": "failmmap", "failK": 0, "failMin": 0, "stream": 1,
+                     "mode": "limited", "budget": bf.UNLIMITED})
         return runs
 
     executed = bf.execute(hv, cases, runs_for)
